@@ -160,3 +160,39 @@ theorem pruneFromWith_no_match (p : Profile) (q : Str → Bool)
     exact List.map_congr_left (fun s _ => by simpa using hs s)
   rw [e1, e2]
 end PV.Prune
+
+/-! ### frame level: the frames after Prune are a sublist of the frames before -/
+namespace PV.Prune
+open PV PV.FilterSpec
+
+theorem flatMap_sublist_of {α β} (f g : α → List β) (hfg : ∀ a, List.Sublist (f a) (g a)) {l₁ l₂ : List α}
+    (h : List.Sublist l₁ l₂) : List.Sublist (l₁.flatMap f) (l₂.flatMap g) := by
+  induction h with
+  | slnil => simp
+  | cons a _ ih => simp only [List.flatMap_cons]; exact List.sublist_append_of_sublist_right ih
+  | cons_cons a _ ih => simp only [List.flatMap_cons]; exact List.Sublist.append (hfg a) ih
+
+theorem locFrames_pruneLoc_sublist (p : Profile) (q : Str → Bool) (l : Location) :
+    List.Sublist (locFrames (pruneLoc p q l)) (locFrames l) := by
+  unfold pruneLoc
+  split
+  · rename_i a r h
+    have hs := dropThroughLast_suffix _ _ _ h
+    have hne : l.lines ≠ [] := by
+      intro h0; rw [h0] at hs; simp at hs
+    rw [locFrames_of_lines_ne hne, locFrames_of_lines_ne (l := { l with lines := a :: r }) (by simp)]
+    exact hs.sublist.map _
+  · exact List.Sublist.refl _
+
+/-- frames after Prune are, for every sample, a sublist (in order) of the frames before. -/
+theorem prune_frames_sublist (p : Profile) (q : Str → Bool) (s : Sample) :
+    List.Sublist (frames (pruneWith p q) (pruneSample p q s)) (frames p s) := by
+  unfold frames
+  apply flatMap_sublist_of _ _ _ (pruneSample_suffix p q s).sublist
+  intro id
+  rw [locFramesOf_pruned p (pruneWith p q) q rfl id]
+  unfold locFramesOf
+  cases p.findLocation id with
+  | some l => exact locFrames_pruneLoc_sublist p q l
+  | none => exact List.Sublist.refl _
+end PV.Prune
